@@ -6,6 +6,8 @@ import SlotVerif.Proofs.Syntax
 import SlotVerif.Proofs.ShapeDecode
 import SlotVerif.Proofs.ShapeApply
 import SlotVerif.Proofs.ShapeBij
+import SlotVerif.Proofs.ShapeKeys
+import SlotVerif.Proofs.AddInv
 /-!
 # C16 — Node shapes are canonical modulo renaming; derived Language impls are coherent
 
@@ -323,6 +325,57 @@ theorem weakShape_bijection_defined_on_slots (n : Node) :
   have hw : SlotMap.WF (Node.weakShape n).2 := SlotMap.wf_inverse _
   have := (SlotMap.get_eq_some_iff hw _ _).mp hg
   exact List.mem_map.mpr ⟨_, this, rfl⟩
+
+theorem pairwise_dedupSorted_ins (x : Nat) : ∀ (l : List Nat), l.Pairwise (· < ·) → (Node.dedupSorted.ins x l).Pairwise (· < ·)
+  | [], _ => by simp [Node.dedupSorted.ins]
+  | a :: t, h => by
+    rw [List.pairwise_cons] at h
+    simp only [Node.dedupSorted.ins]
+    split
+    · rename_i hxa
+      rw [List.pairwise_cons]
+      refine ⟨?_, List.pairwise_cons.mpr h⟩
+      intro z hz
+      rcases List.mem_cons.mp hz with hz | hz
+      · omega
+      · have := h.1 z hz; omega
+    · split
+      · exact List.pairwise_cons.mpr h
+      · rename_i h1 h2
+        rw [List.pairwise_cons]
+        refine ⟨?_, pairwise_dedupSorted_ins x t h.2⟩
+        intro z hz
+        rcases (mem_dedupSorted_ins x z t).mp hz with hz | hz
+        · omega
+        · exact h.1 z hz
+
+/-- **`slots()` ascends strictly** (the `VecSet` a node's free slots are collected into) -/
+theorem slots_sorted (n : Node) : (Node.slots n).Pairwise (· < ·) := by
+  unfold Node.slots Node.dedupSorted
+  suffices ∀ (l acc : List Nat), acc.Pairwise (· < ·) →
+      (l.foldl (fun acc x => Node.dedupSorted.ins x acc) acc).Pairwise (· < ·) from this _ [] List.Pairwise.nil
+  intro l
+  induction l with
+  | nil => intro acc h; exact h
+  | cons a t ih => intro acc h; exact ih _ (pairwise_dedupSorted_ins a acc h)
+
+/-- **the keys of the bijection `weak_shape` returns are exactly the free slots of the shape**, as lists, for every node of every
+language (`keys e.2 == Node.slots e.1`, the third conjunct of the snapshot invariant's `nodeOK`): defined on every free slot
+(`weakShape_bijection_defined_on_slots`) and on nothing else — no binder number and no stale number stays in the renaming
+(`Proofs/ShapeKeys.lean`) -/
+theorem weakShape_bijection_keys (n : Node) : SlotMap.keys (Node.weakShape n).2 = Node.slots (Node.weakShape n).1 := by
+  apply Snap.sorted_ext
+  · have hw : SlotMap.WF (Node.weakShape n).2 := SlotMap.wf_inverse _
+    unfold SlotMap.WF at hw
+    unfold SlotMap.keys
+    exact List.pairwise_map.mpr hw
+  · exact slots_sorted _
+  · intro x
+    constructor
+    · intro hx
+      rw [slots_eq_public]
+      exact ShapeKeys.keys_public n x hx
+    · exact weakShape_bijection_defined_on_slots n x
 
 /-- non-vacuity (kernel-checked): a binder shadowing a free slot of the same name -/
 def exShadow : Node := { v := 0, fields := [.slot 8, .bind 8 (.app { id := 3, m := [(0, 8), (4, 12)] }), .slot 8] }
